@@ -20,6 +20,16 @@ ROOT = os.path.dirname(os.path.dirname(os.path.dirname(os.path.abspath(__file__)
 def generate(groups=None, only=None, out=None, quiet=False):
     out = out or os.path.join(ROOT, 'lean', 'EPV', 'Gen')
     os.makedirs(out, exist_ok=True)
+    import fcntl
+    with open(os.path.join(out, '.gen.lock'), 'w') as lk:
+        fcntl.flock(lk, fcntl.LOCK_EX)      # generators may run concurrently (manifest is read-modify-write)
+        try:
+            return _generate(groups, only, out, quiet)
+        finally:
+            fcntl.flock(lk, fcntl.LOCK_UN)
+
+
+def _generate(groups, only, out, quiet):
     mpath = os.path.join(out, 'gen_manifest.json')
     try:
         manifest = json.load(open(mpath))
@@ -67,7 +77,18 @@ def generate(groups=None, only=None, out=None, quiet=False):
         if not quiet:
             print('%-28s %-12s %.2fs' % (name, manifest[name]['status'], time.time() - t0))
     # registry of Float twins
-    names = sorted(n for n, d in manifest.items() if d.get('status') == 'ok' and (n + 'F.lean') in d.get('files', []))
+    current = set(t['name'] for t in T.TARGETS)
+    for n in list(manifest):
+        if n not in current:
+            # a target that no longer exists: drop its record and its files
+            del manifest[n]
+            for suffix in ('', 'D', 'F'):
+                p = os.path.join(out, n + suffix + '.lean')
+                if os.path.exists(p):
+                    os.remove(p)
+                    changed.append(n + suffix + '.lean')
+    names = sorted(n for n, d in manifest.items() if d.get('status') == 'ok' and (n + 'F.lean') in d.get('files', [])
+                   and os.path.exists(os.path.join(out, n + 'F.lean')))
     reg = ['-- GENERATED.  Registry of the Float twins for the correspondence driver.', '']
     reg += ['import EPV.Gen.%sF' % n for n in names]
     reg += ['', 'namespace EPV.GenF', '',
